@@ -227,6 +227,10 @@ func (c *Compressor) compressValue(v float64) (uint64, error) {
 	}
 
 	leadingZeros := leardingZeros(xor)
+	// The leading-zero count is stored in 5 bits; clamp it so that counts >= 32 are not truncated.
+	if leadingZeros >= 32 {
+		leadingZeros = 31
+	}
 	trailingZeros := trailingZeros(xor)
 
 	if err := c.bw.writeBit(one); err != nil {
